@@ -42,7 +42,7 @@ class PollFuture(_Future):
 
         if delegate.cancelled():
             return
-        if delegate.exception():
+        if delegate.exception() is not None:
             copy_future_exception(delegate, self)
         else:
             self._executor._register_poll(self, self._delegate)
